@@ -31,6 +31,9 @@ COMMON_TABLE = set(K.MF["common_table_keys"]) | {"dataset"}
 
 
 SPECIAL = [
+    "CREATE TABLE db1..t1 (a int, b int);\nALTER TABLE db1..t1 ADD UNIQUE (a);\n",
+    "CREATE TABLE t1 (a int, b int) ROW FORMAT DELIMITED FIELDS TERMINATED BY 124 LINES TERMINATED BY 10;\n",
+    "CREATE TABLE t1 (a int, b int) ROW FORMAT DELIMITED FIELDS TERMINATED BY '|' COLLECTION ITEMS TERMINATED BY 2 MAP KEYS TERMINATED BY 3 LINES TERMINATED BY '\\n' STORED AS TEXTFILE;\n",
     "CREATE TABLE x (a int, b int);\nCREATE TEMPORARY TABLE x (a int, b int, c int);\nALTER TABLE x ADD UNIQUE (a);\nCREATE INDEX i1 ON x (b);\n",
     "CREATE TABLE s1.x (a int, b int);\nCREATE EXTERNAL TABLE s1.x (a int, b int, c int);\nALTER TABLE s1.x ADD c2 int;\nCREATE UNIQUE INDEX i1 ON s1.x (b DESC);\n",
     "CREATE TRANSIENT TABLE x (a int, b int);\nCREATE TABLE x (a int, b int, c int);\nALTER TABLE x DROP COLUMN b;\nALTER TABLE x ADD PRIMARY KEY (a);\n",
@@ -118,7 +121,11 @@ def relate(V, inputs, modes, what, flags=({},)):
                 n += 1
                 case = {"what": what, "input": lab, "ddl": text[:1500], "ctor": ctor, "flags": fl, "mode": m}
                 if base[0] != "ok":
-                    continue  # the default mode itself fails: nothing for C10 to compare (C16 / C04 territory)
+                    # the default mode itself fails (C16 / C04 judge that): the mode must not change the kind of failure either
+                    if o[0] == "ok" or o[1] != base[1]:
+                        V.mismatch(dict(case, problem="the default mode fails, this mode behaves differently", default=base[1:3], this_mode=o[:3] if o[0] != "ok" else "returns a result"),
+                                   paths=["raised_differently"])
+                    continue
                 if o[0] != "ok":
                     V.mismatch(dict(case, problem="mode turns a successful parse into an error", error=o[1:3]), paths=["raised"])
                     continue
